@@ -11,6 +11,9 @@ What is proved (all inputs, no bounds):
                          additively masked high part.
   * `mult_blinding`      zero tests / reciprocal: a·r for a ≠ 0 is uniform (on F for r uniform on F, on F∖{0} for
                          r uniform on F∖{0}); for a = 0 it is 0: the opening depends on the output bit only.
+  * `rerandomized_shares_view` / `product_shares_distinguish`   the m SHARES seen at an opening of a product depend on
+                         the opened value only once a uniform sharing of zero is added; without it (the code before repo
+                         commit 4c3ba5b for fields of order ≥ 2^k) a single party distinguishes two secrets.
   * `maskBound_ge`       the bound B the code hands to PRF / randbelow (`1 << max(0, (bound // d).bit_length() - 1)`,
                          d = C(m,t) resp. t+1) satisfies B·d ≤ bound < 2·B·d.
   * `prss_mask_component` / `noprss_mask_component`   for ANY coalition of ≤ t parties the mask contains a summand
@@ -117,6 +120,35 @@ instance : Fact (Nat.Prime 7) := ⟨by decide⟩
 
 example : ∀ y : ZMod 7, ∃! r : ZMod 7, (3 : ZMod 7) * r = y :=
   (mult_blinding (3 : ZMod 7)).2.1 (by decide)
+
+/-! ### the SHARES of an opened product: re-randomisation (zero tests, reciprocal) -/
+
+/-- ★ `rerandomized_shares_view`: let `V` be the share vectors, `Z ≤ V` the sharings of zero of degree ≤ 2t
+(what `pseudorandom_share_zero` / a resharing contributes).  If two vectors `q q'` differ by an element of `Z` (two
+degree-2t sharings of the SAME opened value), then `q + z` and `q' + z` for `z` uniform on `Z` have the same
+distribution: there is a bijection `σ` of `Z` with `q + z = q' + σ z`.  Hence the m shares seen at an opening depend on the
+opened value only, not on the polynomials `A(X)`, `R(X)` whose product is opened. -/
+theorem rerandomized_shares_view {V : Type} [AddCommGroup V] (Z : AddSubgroup V) (q q' : V) (h : q - q' ∈ Z) :
+    ∃ σ : Z ≃ Z, ∀ z : Z, q + (z : V) = q' + (σ z : V) := by
+  refine ⟨Equiv.addLeft ⟨q - q', h⟩, fun z => ?_⟩
+  simp only [Equiv.coe_addLeft, AddSubgroup.coe_add]
+  rw [← add_assoc, add_sub_cancel]
+
+example : ∃ σ : (⊤ : AddSubgroup (ZMod 7)) ≃ (⊤ : AddSubgroup (ZMod 7)),
+    ∀ z : (⊤ : AddSubgroup (ZMod 7)), (3 : ZMod 7) + z = 5 + σ z :=
+  rerandomized_shares_view ⊤ 3 5 (AddSubgroup.mem_top _)
+
+/-- ★ `product_shares_distinguish`: WITHOUT re-randomisation the property fails (the defect found in
+`is_zero_public` / `reciprocal` for fields of order ≥ 2^k, repaired by repo commit 4c3ba5b).  GF(7), m = 3, t = 1, the
+party with x-coordinate 3: for the secrets `a = 1` and `a' = 2` (both non-zero: equal public output) there is a view
+(the three opened shares of `a·r` and the party's own shares of `a` and `r`) that occurs for `a` (with non-zero blinding
+`r = 1`) but is impossible for `a'`, whatever `A'(X)`, `R'(X)` are. -/
+theorem product_shares_distinguish :
+    ∃ a a' a₁ r r₁ : ZMod 7, a ≠ 0 ∧ a' ≠ 0 ∧ a ≠ a' ∧ r ≠ 0 ∧
+      ∀ a₁' r' r₁' : ZMod 7,
+        ¬ (a' + a₁' * 3 = a + a₁ * 3 ∧ r' + r₁' * 3 = r + r₁ * 3 ∧
+            ∀ x ∈ ([1, 2, 3] : List (ZMod 7)), (a' + a₁' * x) * (r' + r₁' * x) = (a + a₁ * x) * (r + r₁ * x)) :=
+  ⟨1, 2, 1, 1, 1, by decide, by decide, by decide, by decide, by decide⟩
 
 /-! ### the mask range -/
 
